@@ -412,6 +412,12 @@ def builtin_call(ex, name, e, env):
         raise Unsupported("round of real")
     if name == "str":
         return Opaque("str-of", 0)
+    if name == "fields" and name not in env:
+        # dataclasses.fields(obj): one descriptor per annotated field of the object's class, in declaration order (only `.name` is modelled)
+        h = ex.deref(A(0))
+        if isinstance(h, Obj) and ex.ix.class_fields(h.cls):
+            return ex.alloc(CList(tuple(ex.alloc(Obj("Field", (("name", f),))) for f in ex.ix.class_fields(h.cls))))
+        raise Unsupported("dataclasses.fields of a non-dataclass object")
     if name == "getattr":
         base = A(0)
         attr = A(1)
